@@ -82,6 +82,7 @@ class World(object):
         self.attempts = {}          # (tag, i) -> count
         self.action_runs = []       # (tag, i, attempt) actually executed by the executor
         self.step_exc = None
+        self.dispatched = {}        # action_ex id -> number of run_action messages created
         self.writes = []
         self._install()
 
@@ -249,6 +250,8 @@ class World(object):
         self.next_id += 1
         m = Msg(mid, target, method, ctx, kwargs, sync, None)
         self.msgs[mid] = m
+        if method == 'run_action' and kwargs.get('action_ex_id'):
+            self.dispatched[kwargs['action_ex_id']] = self.dispatched.get(kwargs['action_ex_id'], 0) + 1
         if not sync:
             self.msg_order.append(mid)
         return m
